@@ -169,7 +169,7 @@ def _tree_invariants(c: Case, mode: str, pairs) -> list[str]:  # noqa: PLR0912
     bad: list[str] = []
     n, k = c.n, c.k
     names = {r[0] for r in c.member["rules"] if r[1] != "_"} | {"EOI"}
-    tags = {"tg"}
+    tags = set(c.member.get("tags", ("tg",)))
     start_mod = {r[0]: r[1] for r in c.member["rules"]}.get(c.rule)
 
     def visit(p, lo, hi, depth):
@@ -467,13 +467,22 @@ def run_member(task: dict) -> dict:
         for m, err in modes.errors.items():
             res["failures"].append(_static_failure(task, f"build-exc {err}", m))
 
-    for rule, n, k in [(r, n, k) for r, nks in task["rules"] for n, k in nks]:
-        key = f"{rule}|n{n}k{k}"
+    for rule, n, k in [(r, nk[0], nk[1]) for r, nks in task["rules"] for nk in nks]:
+        # n: a length (all texts of that length) or a template [str | int, ...] (concrete parts, symbolic windows)
+        parts = n if isinstance(n, (list, tuple)) else None
+        if parts is not None:
+            key = f"{rule}|t{_template_id(parts)}k{k}"
+            n = sum(p if isinstance(p, int) else len(p) for p in parts)
+        else:
+            key = f"{rule}|n{n}k{k}"
         eng = Engine()
         holder: dict[str, Any] = {}
 
-        def fn(e, n=n, k=k, rule=rule):
-            text = SymStr.fresh(e, n, hi=0x7F if ascii_only else symx.MAXCP) if n else ""
+        def fn(e, n=n, k=k, rule=rule, parts=parts):
+            if parts is not None:
+                text = SymStr.template(e, parts, prefix="c", hi=0x7F if ascii_only else symx.MAXCP) if any(isinstance(p, int) for p in parts) else "".join(parts)
+            else:
+                text = SymStr.fresh(e, n, hi=0x7F if ascii_only else symx.MAXCP) if n else ""
             if no_other_breaks and n:
                 for ch in text.ch:
                     for b in symx.LINE_BOUNDARIES:
@@ -510,7 +519,7 @@ def run_member(task: dict) -> dict:
                                 "status": "new",
                                 "finding": None,
                                 "replay": {"type": "family", "prop": prop, "grammar": member["text"], "rules": member["rules"], "features": sorted(member["features"]),
-                                           "rule": rule, "text": w, "k": k, "modes": task["modes"], "use_ref": bool(task.get("use_ref"))},
+                                           "tags": sorted(member.get("tags", ("tg",))), "rule": rule, "text": w, "k": k, "modes": task["modes"], "use_ref": bool(task.get("use_ref"))},
                             }
                         )
                     continue
@@ -559,6 +568,7 @@ def run_member(task: dict) -> dict:
                                 "grammar": member["text"],
                                 "rules": member["rules"],
                                 "features": sorted(member["features"]),
+                                "tags": sorted(member.get("tags", ("tg",))),
                                 "rule": rule,
                                 "text": wit,
                                 "k": k,
@@ -571,6 +581,12 @@ def run_member(task: dict) -> dict:
             res["inconclusive"].append((key, str(e)))
         core.absorb_engine(res, eng)
     return res
+
+
+def _template_id(parts) -> str:
+    import hashlib
+
+    return hashlib.sha1(repr(list(parts)).encode()).hexdigest()[:8]
 
 
 def _vars_of(text):
